@@ -255,7 +255,8 @@ func TestProxyHuge(t *testing.T) {
 	if strconv.IntSize < 64 {
 		t.Skip("int has 32 bits here: sizes above 2 GiB are not expressible")
 	}
-	huge := 1<<31 + 7
+	huge64 := int64(1)<<31 + 7
+	huge := int(huge64) // (a constant expression would not compile where int has 32 bits)
 	for _, caps := range []string{"basic", "full", "nearfull"} {
 		for _, ops := range [][]POp{{{"rfhuge", huge}}, {{"w", 5}, {"rfhuge", huge}}, {{"rfhuge", 1 << 30}, {"rfhuge", 1<<30 + 3}, {"w", 9}}} {
 			c := &PCase{Caps: caps, Accept: -1, Ops: ops}
